@@ -77,6 +77,24 @@ def u2fOf (s : String) : Map (String × String) :=
     | [u, n, e] => m.insert (pctDecode u) (pctDecode n, pctDecode e)
     | _ => m) ∅
 
+/-- a resource tree of height ≤ 2: `F` | `C` | `C<m;m;…>` with `m` = `name/F` | `name/C` | `name/C(n+n+…)`
+    (names percent-encoded; the grandchildren are files) -/
+def treeOf (s : String) : Py.ResTree :=
+  if s == "F" then .node false []
+  else if s == "C" then .node true []
+  else
+    let body := ((s.drop 2).toString.dropEnd 1).toString
+    .node true ((body.splitOn ";").filterMap fun m =>
+      match m.splitOn "/" with
+      | [n, "F"] => some (pctDecode n, .node false [])
+      | [n, "C"] => some (pctDecode n, .node true [])
+      | [n, k] =>
+        if k.startsWith "C(" then
+          let inner := ((k.drop 2).toString.dropEnd 1).toString
+          some (pctDecode n, .node true ((inner.splitOn "+").map fun g => (pctDecode g, .node false [])))
+        else none
+      | _ => none)
+
 def gstep (line : String) : String :=
   match words line with
   | ["etag", h, cur] => bb (Generated.etag_matches (fieldS h).toList ((field cur).map String.toList))
@@ -137,6 +155,10 @@ def gstep (line : String) : String :=
     -- observed through lookups of the probed UIDs
     "=" ++ ",".intercalate ((itemsOf probe).map fun u =>
       pctEncode u ++ ":" ++ (match m[u]? with | some (n, e) => pctEncode n ++ ":" ++ pctEncode e | none => "~:~"))
+  | ["tv", tree, href, depth] =>
+    (match Generated.traverse_resource 200 (treeOf tree) (fieldS href) (fieldS depth) with
+     | .ok rows => "=" ++ ",".intercalate (rows.map fun (h, r) => pctEncode h ++ ":" ++ (if r.isCollection then "C" else "F"))
+     | .error (.raised cls _) => "raise:" ++ cls)
   | ["match", a, b, k] => exc (Generated.match_ (fieldS a).toList (fieldS b).toList (fieldS k).toList)
   | ["collate", name, a, b, k] =>
     match Generated.collations.find? (fun r => r.1 == (fieldS name).toList) with
